@@ -192,10 +192,49 @@ def run_family(ctx):
     ctx.sample({"scenario": scs[0], "events": [json.loads(x) for x in results[0][2][:12]]})
     if not ctx.replay:
         selftest(ctx, results[0][2])
+    if ctx.pid == "C03" and not ctx.replay:
+        durable_on_servers(ctx)
     ctx.assumptions += ["etcd/raft and Badger are trusted; crash instants inside one WriteBatch.Flush are not modelled",
                         "a crash is Goexit of the ready-loop goroutine + a dark transport; the restart uses fresh objects on the same database handle",
                         "ticks are pumped by the harness on top of the production ticker"]
     return "model_checking"
+
+
+def durable_on_servers(ctx):
+    """C03 on real server processes: acknowledged inserts / updates / removes through all three nodes, kill -9 of
+    every node and restart on the same directories, then of one node; what a search returns afterwards is checked
+    against the acknowledgements by ClusterViewTrace (AckedLostOnRestart, GhostAfterRestart)."""
+    import clusfam
+    trace, res = clusfam.run_scenarios(ctx, 1 if ctx.tier == "quick" else 4, ["durable"])
+    v, n = vlib.validate_trace(ctx, "ClusterViewTrace", "ClusterViewTrace.cfg", trace, lambda l: l.startswith('{"ev":"scenario"'), chunk_events=100000)
+    lines = open(trace).read().splitlines()
+    by = {}
+    for x in v:
+        if x[1] in ("AckedLostOnRestart", "GhostAfterRestart", "RestartFailed", "NodeDied"):
+            e = json.loads(lines[x[0]])
+            by.setdefault("%s@servers:%s" % (x[1], e.get("after", e["ev"])), []).append(e)
+    for sig in sorted(by):
+        e = by[sig][0]
+        ctx.finding(sig, "%s: %s (%d such events)" % (sig, json.dumps(e)[:500], len(by[sig])), {"event": e})
+    nf = sum(1 for x in lines if '"ev":"found"' in x)
+    na = sum(1 for x in lines if '"ev":"wack"' in x and '"ok":1' in x)
+    ctx.log("real servers: %d acknowledged writes, %d searches after kill -9 / restart: %d failed checks" % (na, nf, sum(len(x) for x in by.values())))
+    if nf == 0 or na == 0:
+        raise vlib.NoVerdict("the durable scenario on real servers produced no acknowledged writes / searches")
+    ctx.cov["real_server_acked_writes"] = na
+    ctx.cov["real_server_searches_after_restart"] = nf
+    # binding self-test: a search that misses an acknowledged item must be rejected
+    mut = [json.loads(x) for x in lines]
+    for e in reversed(mut):
+        if e["ev"] == "found" and e["ids"]:
+            e["ids"] = e["ids"][1:]
+            break
+    p = ctx.path("selfd.ndjson")
+    open(p, "w").writelines(json.dumps(e) + "\n" for e in mut)
+    v2, _ = vlib.validate_trace(ctx, "ClusterViewTrace", "ClusterViewTrace.cfg", p, lambda l: False)
+    ctx.cov["binding_selftest"]["missing_acknowledged_item_rejected"] = any(x[1] == "AckedLostOnRestart" for x in v2)
+    if not ctx.cov["binding_selftest"]["missing_acknowledged_item_rejected"]:
+        raise vlib.NoVerdict("binding self-test failed: a lost acknowledged item was accepted")
 
 
 def selftest(ctx, lines):
